@@ -184,8 +184,8 @@ func C16(op Opts) *Out {
 		push(le8(minF)), push(le8(maxF)), push(le8(0)), push(le8(maxF + 1)), push(le8(^uint64(0))),
 		push(pub33), push(h3[:31]), push(append(append([]byte{}, h3...), 1)), push([]byte("verif")),
 		append([]byte{txscript.OP_PUSHDATA1, 32}, h3...), // non-minimal push of 32 bytes
-		{0x20, 1, 2, 3},                                   // truncated push
-		{txscript.OP_PUSHDATA2, 0xff},                     // truncated pushdata2
+		{0x20, 1, 2, 3},               // truncated push
+		{txscript.OP_PUSHDATA2, 0xff}, // truncated pushdata2
 	}
 	maxItems := 4
 	if op.Tier == "thorough" {
